@@ -124,7 +124,7 @@ func c01GenVal(r *simrt.RNG, forRule bool, containers bool) c01Val {
 	case x < 75:
 		return c01Val{T: "str", S: []string{"a", "b", "ab", "1"}[r.Intn(4)]}
 	case x < 90 && forRule:
-		return c01Val{T: "regex", S: []string{"^a", "b$", "^[0-9]+$", "a|1"}[r.Intn(4)]}
+		return c01Val{T: "regex", S: []string{"^a", "b$", "^[0-9]+$", "a|1", ".+", "^$", "nil"}[r.Intn(7)]}
 	case x < 95 && containers:
 		// [n] or ["n"]: different values that read alike
 		return c01Val{T: "list", N: float64(1 + r.Intn(2)), S: []string{"", "", "str"}[r.Intn(3)]}
@@ -816,6 +816,13 @@ func c01Run(p *c01Plan) {
 				simrt.Fail("oracle:add-rule", "add-rule", "AddRule(%s): %v", ru.Name, err)
 			}
 		}
+	}
+	if len(p.Rules)%3 == 0 && !p.ViaECAL {
+		// a rule the processor must refuse (no kind pattern): it is not part of the rule set
+		if err := proc.AddRule(&engine.Rule{Name: "refused", KindMatch: nil, ScopeMatch: []string{}, Action: action("refused")}); err == nil {
+			simrt.Fail("oracle:add-rule", "add-rule", "a rule without kind patterns was accepted")
+		}
+		simrt.Count("reach_rule_refused")
 	}
 	addRules(p.Rules)
 	proc.Start()
